@@ -529,6 +529,39 @@ func observePlain(pm *openfgav1.AuthorizationModel, labels []string, withCycles 
 			o.revOK = "GetCycles() on the same graph answers differently the second time: " + o.cycles + " then " + again
 		}
 	}
+	// the graphs are the caller's: pruning one of them (gonum's mutation API is
+	// promoted through the embedded graph) is nobody else's business - the
+	// graph it was derived from and its sibling keep answering as before
+	{
+		before := map[string]bool{}
+		for _, a := range labels {
+			_, e1 := g.GetNodeByLabel(a)
+			_, e2 := rev.GetNodeByLabel(a)
+			before[a] = e1 == nil
+			before["rev:"+a] = e2 == nil
+		}
+		it := rev2.Nodes()
+		var ids []int64
+		for it.Next() {
+			ids = append(ids, it.Node().ID())
+		}
+		sort.Slice(ids, func(i, j int) bool { return ids[i] < ids[j] })
+		for i, id := range ids {
+			if i%2 == 0 {
+				rev2.RemoveNode(id)
+			}
+		}
+		for _, a := range labels {
+			_, e1 := g.GetNodeByLabel(a)
+			_, e2 := rev.GetNodeByLabel(a)
+			if before[a] != (e1 == nil) || before["rev:"+a] != (e2 == nil) {
+				o.revOK = "removing nodes from the twice reversed graph changed what label lookup answers on the graph or its reversal (" + a + ")"
+			}
+		}
+		if after := g.GetDOT(); after != o.dot {
+			o.revOK = "removing nodes from the twice reversed graph changed the DOT of the graph"
+		}
+	}
 	return o
 }
 
@@ -595,6 +628,12 @@ func newPlainCtx(wl *wlPlain) *plainCtx {
 		c.labels = sel
 	}
 	c.labels = append(c.labels, "nosuch", "union", "user:*x")
+	if len(c.labels) > 3 {
+		// other spellings of an existing label are not that label: quoted as in
+		// the DOT text, back-quoted, with an escape sequence, padded, case-folded
+		l := c.labels[0]
+		c.labels = append(c.labels, strconv.Quote(l), "`"+l+"`", " "+l, l+" ", strings.ToUpper(l[:1])+l[1:])
+	}
 	c.withCycles = !c.ref.manyCycles(300)
 	c.cc, c.acyc = c.ref.cycles()
 	c.reachOf = map[string]map[string]bool{}
